@@ -220,10 +220,67 @@ class Check(PropertyCheck):
                 out.append(v)
         return out
 
+    def scarce_descriptor_runs(self):
+        """Independence of operands also means that an operand leaves nothing behind that a later one can run out of: long runs of
+        skipped / failed / completed operands followed by ordinary ones, with RLIMIT_NOFILE = 16 (prlimit), combined versus separate."""
+        self.setup()
+        t1, t2 = 1_234_567_890_123_456_789, 1_111_111_111_000_000_001
+        r = vlib.SplitMix(self.seed * 7 + 3)
+        plain = bytes(r.choice(b"abcdefgh \n") for _ in range(70000))
+        z = self.codec.get("C", b"payload\n" * 30)[1]
+        scns = []
+        for mode in ("c-exists", "d-exists", "c-done", "d-done", "d-notbz", "c-mixed"):
+            names, inodes, ops = {}, {}, []
+            ino = [10]
+
+            def add(nm, data, op=True):
+                names[nm] = ("L", ino[0])
+                inodes[ino[0]] = {"kind": "r", "mode": 0o644, "uid": 0, "gid": 0, "atime": t1, "mtime": t2, "data": data}
+                ino[0] += 1
+                if op:
+                    ops.append(nm)
+            nskip = 24 if self.tier == "quick" else 40
+            for i in range(nskip):
+                if mode == "c-exists" or (mode == "c-mixed" and i % 3 == 0):
+                    add("s%d" % i, b"abc\n")
+                    add("s%d.bz2" % i, b"older", op=False)
+                elif mode == "d-exists":
+                    add("s%d.bz2" % i, z)
+                    add("s%d" % i, b"older", op=False)
+                elif mode == "c-done" or (mode == "c-mixed" and i % 3 == 1):
+                    add("s%d" % i, b"abc %d\n" % i)
+                elif mode == "d-done":
+                    add("s%d.bz2" % i, z)
+                elif mode == "d-notbz":
+                    add("s%d.bz2" % i, b"this is not bzip2 data\n")
+                else:
+                    ops.append("missing%d" % i)
+            if mode.startswith("c"):
+                add("last-big", plain)
+                add("last-empty", b"")
+            else:
+                add("last-big.bz2", self.codec.get("C", plain)[1])
+                add("last-empty.bz2", self.codec.get("C", b"")[1])
+            flags = (["-d"] if mode.startswith("d") else []) + (["-k"] if r.chance(1, 2) else [])
+            scns.append({"names": names, "inodes": inodes, "ops": ops, "flags": flags, "plan": None, "kinds": [mode]})
+
+        def one(i):
+            return fl.run_real(self.exe, scns[i], os.path.join(self.scn_dir, "fd%d" % i), wrapper=["prlimit", "--nofile=16"], timeout=60)
+        with ThreadPoolExecutor(max_workers=6) as ex:
+            reals = list(ex.map(one, range(len(scns))))
+        self.notes.append("scarce-descriptor runs (prlimit --nofile=16, %d operands each): %s" % (
+            len(scns[0]["ops"]), ", ".join("%s:%s" % (s["kinds"][0], x["outcome"]) for s, x in zip(scns, reals))))
+        out = self.direct_on(scns, reals, len(scns))
+        for v in out:
+            v.key = v.key.replace("c18:combined-vs-separate", "c18:scarce-descriptors")
+            v.payload["wrapper"] = ["prlimit", "--nofile=16"]
+        return out
+
     def direct(self):
         if not hasattr(self, "scns"):
             return []
-        return self.direct_on(self.scns, self.reals, getattr(self, "nmix", 0) + (150 if self.tier == "quick" else 1500)) + self.findings()
+        return (self.direct_on(self.scns, self.reals, getattr(self, "nmix", 0) + (150 if self.tier == "quick" else 1500))
+                + self.scarce_descriptor_runs() + self.findings())
 
     def findings(self):
         """Confirmed deviation from the property text, reported with a fixed key when reproduced (known_findings.json)."""
@@ -261,7 +318,7 @@ class Check(PropertyCheck):
             print("replay file names no scenario:", json.dumps(p.get("broken"), indent=1)[:3000])
             return 1
         scn = fl.scn_from_brief(p["scenario"])
-        real = fl.run_real(self.exe, scn, os.path.join(self.scn_dir, "replay"))
+        real = fl.run_real(self.exe, scn, os.path.join(self.scn_dir, "replay"), wrapper=p.get("wrapper", ()), timeout=60)
         diffs, rcs = self.combined_vs_separate(scn, real, 999999)
         print("lbzip2", " ".join(fl.argv_of(scn)), "->", real["outcome"], "; separately:", rcs)
         for d in diffs:
